@@ -449,6 +449,9 @@ fn run_replay(args: &[String]) -> i32 {
 }
 
 fn main() {
+    if let Ok(spec) = std::env::var("VERIF_C15_ORDER") {
+        std::process::exit(vcore::h_filter::order_child(&spec));
+    }
     let args: Vec<String> = std::env::args().collect();
     let code = match args.get(1).map(String::as_str) {
         Some("sched") => run_sched(&args),
